@@ -24,12 +24,75 @@ class VarRel (R : IndexCtx → IndexCtx → Prop) : Prop where
 class NoScopeRel (R : IndexCtx → IndexCtx → Prop) : Prop where
   scopes : ∀ c c' s, R c c' → R c { c' with scopes := s }
 
+/-- the steps of the `SymMap` API *as the indexer performs them*: `SmStep`, but records and
+multiclasses are allocated with empty name maps, the generic mutations do not touch the name maps of
+a record / multiclass, and an entry is added to such a map only for an id that exists
+(`insertField`, `insertTARecord`, `insertTAMulticlass`) -/
+inductive SmStepC : SymMap → SymMap → Prop
+  | addRecord (sm r g) (hr : r.nameToRecordField = #[] ∧ r.nameToTemplateArg = #[]) : SmStepC sm (sm.addRecord r g).2
+  | addAnonymousDef (sm r) (hr : r.nameToRecordField = #[] ∧ r.nameToTemplateArg = #[]) : SmStepC sm (sm.addAnonymousDef r).2
+  | addMulticlassDef (sm r) (hr : r.nameToRecordField = #[] ∧ r.nameToTemplateArg = #[]) : SmStepC sm (sm.addMulticlassDef r).2
+  | registerDefsetName (sm id) : SmStepC sm (sm.registerDefsetName id)
+  | addTemplateArgument (sm a) : SmStepC sm (sm.addTemplateArgument a).2
+  | addRecordField (sm f) : SmStepC sm (sm.addRecordField f).2
+  | addVariable (sm v) : SmStepC sm (sm.addVariable v).2
+  | addDefset (sm d) : SmStepC sm (sm.addDefset d).2
+  | addMulticlass (sm m) (hm : m.nameToTemplateArg = #[]) : SmStepC sm (sm.addMulticlass m).2
+  | addDefm (sm d g) : SmStepC sm (sm.addDefm d g).2
+  | addAnonymousDefm (sm d) : SmStepC sm (sm.addAnonymousDefm d).2
+  | addReference (sm s loc) : SmStepC sm (sm.addReference s loc)
+  | recordMut (sm : SymMap) (id : Nat) (f : Record → Record)
+      (hf : ∀ r, (f r).name = r.name ∧ (f r).defineLoc = r.defineLoc)
+      (hc : ∀ r, (f r).nameToRecordField = r.nameToRecordField ∧ (f r).nameToTemplateArg = r.nameToTemplateArg) :
+      SmStepC sm { sm with recordList := sm.recordList.modify id f }
+  | multiclassMut (sm : SymMap) (id : Nat) (f : Multiclass → Multiclass)
+      (hf : ∀ r, (f r).name = r.name ∧ (f r).defineLoc = r.defineLoc)
+      (hc : ∀ r, (f r).nameToTemplateArg = r.nameToTemplateArg) :
+      SmStepC sm { sm with multiclassList := sm.multiclassList.modify id f }
+  | defmMut (sm : SymMap) (id : Nat) (f : Defm → Defm)
+      (hf : ∀ r, (f r).name = r.name ∧ (f r).defineLoc = r.defineLoc) :
+      SmStepC sm { sm with defmList := sm.defmList.modify id f }
+  | defsetMut (sm : SymMap) (id : Nat) (f : Defset → Defset)
+      (hf : ∀ r, (f r).name = r.name ∧ (f r).defineLoc = r.defineLoc) :
+      SmStepC sm { sm with defsetList := sm.defsetList.modify id f }
+  | insertField (sm : SymMap) (rid : Nat) (name : String) (fid : Nat) (h : fid < sm.recordFieldList.size) :
+      SmStepC sm { sm with recordList := sm.recordList.modify rid fun rec =>
+        { rec with nameToRecordField := indexMapInsert rec.nameToRecordField name fid } }
+  | insertTARecord (sm : SymMap) (rid : Nat) (name : String) (tid : Nat) (h : tid < sm.templateArgList.size) :
+      SmStepC sm { sm with recordList := sm.recordList.modify rid fun rec =>
+        { rec with nameToTemplateArg := indexMapInsert rec.nameToTemplateArg name tid } }
+  | insertTAMulticlass (sm : SymMap) (mid : Nat) (name : String) (tid : Nat) (h : tid < sm.templateArgList.size) :
+      SmStepC sm { sm with multiclassList := sm.multiclassList.modify mid fun mc =>
+        { mc with nameToTemplateArg := indexMapInsert mc.nameToTemplateArg name tid } }
+
+theorem SmStepC.toStep {sm sm' : SymMap} (h : SmStepC sm sm') : SmStep sm sm' := by
+  cases h with
+  | addRecord r g _ => exact .addRecord sm r g
+  | addAnonymousDef r _ => exact .addAnonymousDef sm r
+  | addMulticlassDef r _ => exact .addMulticlassDef sm r
+  | registerDefsetName id => exact .registerDefsetName sm id
+  | addTemplateArgument a => exact .addTemplateArgument sm a
+  | addRecordField f => exact .addRecordField sm f
+  | addVariable v => exact .addVariable sm v
+  | addDefset d => exact .addDefset sm d
+  | addMulticlass m _ => exact .addMulticlass sm m
+  | addDefm d g => exact .addDefm sm d g
+  | addAnonymousDefm d => exact .addAnonymousDefm sm d
+  | addReference s loc => exact .addReference sm s loc
+  | recordMut id f hf _ => exact .recordMut sm id f hf
+  | multiclassMut id f hf _ => exact .multiclassMut sm id f hf
+  | defmMut id f hf => exact .defmMut sm id f hf
+  | defsetMut id f hf => exact .defsetMut sm id f hf
+  | insertField rid name fid _ => exact .recordMut sm rid _ (fun _ => ⟨rfl, rfl⟩)
+  | insertTARecord rid name tid _ => exact .recordMut sm rid _ (fun _ => ⟨rfl, rfl⟩)
+  | insertTAMulticlass mid name tid _ => exact .multiclassMut sm mid _ (fun _ => ⟨rfl, rfl⟩)
+
 /-- what the pass over the indexer needs from a relation: the steps of the `SymMap` API, drawing an
 anonymous name, reporting a diagnostic, and (as a whole, because it switches the current file and
 marks the included file) `include`.  Every `StdRel` is an instance; relations that talk about the
 diagnostics / the file trace (`IdeSemDiag.lean`) are instances directly. -/
 class CoreRel (R : IndexCtx → IndexCtx → Prop) : Prop extends KeepRel R where
-  sm : ∀ c sm', SmStep c.symbolMap sm' → R c { c with symbolMap := sm' }
+  sm : ∀ c sm', SmStepC c.symbolMap sm' → R c { c with symbolMap := sm' }
   anon : Keeps R nextAnonymousDefName
   error : ∀ rg msg, Keeps R (error rg msg)
   incl : ∀ (r : Rec), (∀ n, Keeps R (r.sourceFile n)) → ∀ n, Keeps R (Index.indexInclude r n)
@@ -69,7 +132,7 @@ theorem error_keeps_std (rg : Nat × Nat) (msg : String) : Keeps R (error rg msg
   exact Keeps.modify _ fun _ => StdRel.of_eq _ _ rfl rfl rfl
 
 instance : CoreRel R where
-  sm := StdRel.sm
+  sm := fun c sm' h => StdRel.sm c sm' h.toStep
   anon := Keeps.modifyGet _ fun _ => StdRel.of_eq _ _ rfl rfl rfl
   error := error_keeps_std
   incl := fun r hsf n => by
@@ -84,6 +147,16 @@ instance : CoreRel R where
       · split
         · exact Keeps.bind (pushFile_keeps _) fun _ => Keeps.bind (hsf _) fun _ => popFile_keeps
         · exact Keeps.pure _
+
+/-- for a `StdRel` every mutation of a record / multiclass that keeps name and location is allowed -/
+theorem recordMut_keeps_std (id : Nat) (f : Record → Record)
+    (hf : ∀ r, (f r).name = r.name ∧ (f r).defineLoc = r.defineLoc) : Keeps R (recordMut id f) :=
+  Keeps.modifyGet _ fun c => StdRel.sm c _ (.recordMut c.symbolMap id f hf)
+theorem multiclassMut_keeps_std (id : Nat) (f : Multiclass → Multiclass)
+    (hf : ∀ r, (f r).name = r.name ∧ (f r).defineLoc = r.defineLoc) : Keeps R (multiclassMut id f) :=
+  Keeps.modifyGet _ fun c => StdRel.sm c _ (.multiclassMut c.symbolMap id f hf)
+macro_rules | `(tactic| keeps_prim) => `(tactic| exact recordMut_keeps_std _ _ (fun _ => ⟨rfl, rfl⟩))
+macro_rules | `(tactic| keeps_prim) => `(tactic| exact multiclassMut_keeps_std _ _ (fun _ => ⟨rfl, rfl⟩))
 
 end primsStd
 
@@ -119,16 +192,19 @@ theorem canBeCastedTo_keeps (a b : Ty) : Keeps R (canBeCastedTo a b) := withSM_k
 macro_rules | `(tactic| keeps_prim) => `(tactic| exact canBeCastedTo_keeps _ _)
 
 /-- `modifySM` with a function whose effect is one API step -/
-theorem modifySM_keeps {α : Type} (f : SymMap → α × SymMap) (hf : ∀ sm, SmStep sm (f sm).2) :
+theorem modifySM_keeps {α : Type} (f : SymMap → α × SymMap) (hf : ∀ sm, SmStepC sm (f sm).2) :
     Keeps R (modifySM f) :=
   Keeps.modifyGet _ fun c => CoreRel.sm c _ (hf c.symbolMap)
 
-theorem addRecord_keeps (r : Record) (g : Bool) : Keeps R (addRecord r g) :=
-  modifySM_keeps _ fun sm => .addRecord sm r g
-theorem addAnonymousDef_keeps (r : Record) : Keeps R (addAnonymousDef r) :=
-  modifySM_keeps _ fun sm => .addAnonymousDef sm r
-theorem addMulticlassDef_keeps (r : Record) : Keeps R (addMulticlassDef r) :=
-  modifySM_keeps _ fun sm => .addMulticlassDef sm r
+theorem addRecord_keeps (r : Record) (g : Bool) (hr : r.nameToRecordField = #[] ∧ r.nameToTemplateArg = #[]) :
+    Keeps R (addRecord r g) :=
+  modifySM_keeps _ fun sm => .addRecord sm r g hr
+theorem addAnonymousDef_keeps (r : Record) (hr : r.nameToRecordField = #[] ∧ r.nameToTemplateArg = #[]) :
+    Keeps R (addAnonymousDef r) :=
+  modifySM_keeps _ fun sm => .addAnonymousDef sm r hr
+theorem addMulticlassDef_keeps (r : Record) (hr : r.nameToRecordField = #[] ∧ r.nameToTemplateArg = #[]) :
+    Keeps R (addMulticlassDef r) :=
+  modifySM_keeps _ fun sm => .addMulticlassDef sm r hr
 theorem registerDefsetName_keeps (id : Nat) : Keeps R (registerDefsetName id) :=
   modifySM_keeps _ fun sm => .registerDefsetName sm id
 theorem addTemplateArgument_keeps (a : TemplateArgument) : Keeps R (addTemplateArgument a) :=
@@ -139,41 +215,44 @@ theorem addVariable_keeps (v : Variable) : Keeps R (addVariable v) :=
   modifySM_keeps _ fun sm => .addVariable sm v
 theorem addDefset_keeps (d : Defset) : Keeps R (addDefset d) :=
   modifySM_keeps _ fun sm => .addDefset sm d
-theorem addMulticlass_keeps (m : Multiclass) : Keeps R (addMulticlass m) :=
-  modifySM_keeps _ fun sm => .addMulticlass sm m
+theorem addMulticlass_keeps (m : Multiclass) (hm : m.nameToTemplateArg = #[]) : Keeps R (addMulticlass m) :=
+  modifySM_keeps _ fun sm => .addMulticlass sm m hm
 theorem addDefm_keeps (d : Defm) (g : Bool) : Keeps R (addDefm d g) :=
   modifySM_keeps _ fun sm => .addDefm sm d g
 theorem addAnonymousDefm_keeps (d : Defm) : Keeps R (addAnonymousDefm d) :=
   modifySM_keeps _ fun sm => .addAnonymousDefm sm d
 theorem addReference_keeps (s : SymbolId) (loc : FileRange) : Keeps R (addReference s loc) :=
   modifySM_keeps _ fun sm => .addReference sm s loc
-macro_rules | `(tactic| keeps_prim) => `(tactic| exact addRecord_keeps _ _)
-macro_rules | `(tactic| keeps_prim) => `(tactic| exact addAnonymousDef_keeps _)
-macro_rules | `(tactic| keeps_prim) => `(tactic| exact addMulticlassDef_keeps _)
+macro_rules | `(tactic| keeps_prim) => `(tactic| exact addRecord_keeps _ _ ⟨rfl, rfl⟩)
+macro_rules | `(tactic| keeps_prim) => `(tactic| exact addAnonymousDef_keeps _ ⟨rfl, rfl⟩)
+macro_rules | `(tactic| keeps_prim) => `(tactic| exact addMulticlassDef_keeps _ ⟨rfl, rfl⟩)
 macro_rules | `(tactic| keeps_prim) => `(tactic| exact registerDefsetName_keeps _)
 macro_rules | `(tactic| keeps_prim) => `(tactic| exact addTemplateArgument_keeps _)
 macro_rules | `(tactic| keeps_prim) => `(tactic| exact addRecordField_keeps _)
 macro_rules | `(tactic| keeps_prim) => `(tactic| exact addVariable_keeps _)
 macro_rules | `(tactic| keeps_prim) => `(tactic| exact addDefset_keeps _)
-macro_rules | `(tactic| keeps_prim) => `(tactic| exact addMulticlass_keeps _)
+macro_rules | `(tactic| keeps_prim) => `(tactic| exact addMulticlass_keeps _ rfl)
 macro_rules | `(tactic| keeps_prim) => `(tactic| exact addDefm_keeps _ _)
 macro_rules | `(tactic| keeps_prim) => `(tactic| exact addAnonymousDefm_keeps _)
 macro_rules | `(tactic| keeps_prim) => `(tactic| exact addReference_keeps _ _)
 
 theorem recordMut_keeps (id : Nat) (f : Record → Record)
-    (hf : ∀ r, (f r).name = r.name ∧ (f r).defineLoc = r.defineLoc) : Keeps R (recordMut id f) :=
-  modifySM_keeps _ fun sm => .recordMut sm id f hf
+    (hf : ∀ r, (f r).name = r.name ∧ (f r).defineLoc = r.defineLoc)
+    (hc : ∀ r, (f r).nameToRecordField = r.nameToRecordField ∧ (f r).nameToTemplateArg = r.nameToTemplateArg) :
+    Keeps R (recordMut id f) :=
+  modifySM_keeps _ fun sm => .recordMut sm id f hf hc
 theorem multiclassMut_keeps (id : Nat) (f : Multiclass → Multiclass)
-    (hf : ∀ r, (f r).name = r.name ∧ (f r).defineLoc = r.defineLoc) : Keeps R (multiclassMut id f) :=
-  modifySM_keeps _ fun sm => .multiclassMut sm id f hf
+    (hf : ∀ r, (f r).name = r.name ∧ (f r).defineLoc = r.defineLoc)
+    (hc : ∀ r, (f r).nameToTemplateArg = r.nameToTemplateArg) : Keeps R (multiclassMut id f) :=
+  modifySM_keeps _ fun sm => .multiclassMut sm id f hf hc
 theorem defmMut_keeps (id : Nat) (f : Defm → Defm)
     (hf : ∀ r, (f r).name = r.name ∧ (f r).defineLoc = r.defineLoc) : Keeps R (defmMut id f) :=
   modifySM_keeps _ fun sm => .defmMut sm id f hf
 theorem defsetMut_keeps (id : Nat) (f : Defset → Defset)
     (hf : ∀ r, (f r).name = r.name ∧ (f r).defineLoc = r.defineLoc) : Keeps R (defsetMut id f) :=
   modifySM_keeps _ fun sm => .defsetMut sm id f hf
-macro_rules | `(tactic| keeps_prim) => `(tactic| exact recordMut_keeps _ _ (fun _ => ⟨rfl, rfl⟩))
-macro_rules | `(tactic| keeps_prim) => `(tactic| exact multiclassMut_keeps _ _ (fun _ => ⟨rfl, rfl⟩))
+macro_rules | `(tactic| keeps_prim) => `(tactic| exact recordMut_keeps _ _ (fun _ => ⟨rfl, rfl⟩) (fun _ => ⟨rfl, rfl⟩))
+macro_rules | `(tactic| keeps_prim) => `(tactic| exact multiclassMut_keeps _ _ (fun _ => ⟨rfl, rfl⟩) (fun _ => rfl))
 macro_rules | `(tactic| keeps_prim) => `(tactic| exact defmMut_keeps _ _ (fun _ => ⟨rfl, rfl⟩))
 macro_rules | `(tactic| keeps_prim) => `(tactic| exact defsetMut_keeps _ _ (fun _ => ⟨rfl, rfl⟩))
 
@@ -185,6 +264,54 @@ macro_rules | `(tactic| keeps_prim) => `(tactic| exact utilsIdentifier_keeps _)
 theorem scopesAddVariable_keeps [VarRel R] (v : Variable) : Keeps R (scopesAddVariable v) :=
   VarRel.addVariable v
 macro_rules | `(tactic| keeps_prim) => `(tactic| exact scopesAddVariable_keeps _)
+
+/-! registering an allocated field / template argument in its record or multiclass -/
+
+theorem addRecordField_id (f : RecordField) (c c3 : IndexCtx) (id : Nat) (h3 : (addRecordField f).run c = .ok (id, c3)) :
+    R c c3 ∧ id < c3.symbolMap.recordFieldList.size := by
+  have e3 : (addRecordField f).run c = .ok ((c.symbolMap.addRecordField f).1,
+      { c with symbolMap := (c.symbolMap.addRecordField f).2 }) := rfl
+  rw [e3] at h3
+  cases h3
+  exact ⟨CoreRel.sm c _ (.addRecordField c.symbolMap f), by simp [SymMap.addRecordField, SymMap.logDefine]⟩
+
+theorem addTemplateArgument_id (a : TemplateArgument) (c c3 : IndexCtx) (id : Nat)
+    (h3 : (addTemplateArgument a).run c = .ok (id, c3)) :
+    R c c3 ∧ id < c3.symbolMap.templateArgList.size := by
+  have e3 : (addTemplateArgument a).run c = .ok ((c.symbolMap.addTemplateArgument a).1,
+      { c with symbolMap := (c.symbolMap.addTemplateArgument a).2 }) := rfl
+  rw [e3] at h3
+  cases h3
+  exact ⟨CoreRel.sm c _ (.addTemplateArgument c.symbolMap a), by simp [SymMap.addTemplateArgument, SymMap.logDefine]⟩
+
+theorem insertField_step (rid : Nat) (name : String) (id : Nat) (c c4 : IndexCtx) (hid : id < c.symbolMap.recordFieldList.size)
+    (h4 : (recordMut rid fun rec => { rec with nameToRecordField := indexMapInsert rec.nameToRecordField name id }).run c =
+      .ok ((), c4)) : R c c4 := by
+  have e4 : (recordMut rid fun rec => { rec with nameToRecordField := indexMapInsert rec.nameToRecordField name id }).run c
+      = .ok ((), _) := rfl
+  rw [e4] at h4
+  cases h4
+  exact CoreRel.sm c _ (.insertField _ rid name id hid)
+
+theorem insertTARecord_step (rid : Nat) (name : String) (id : Nat) (c c4 : IndexCtx)
+    (hid : id < c.symbolMap.templateArgList.size)
+    (h4 : (recordMut rid fun rec => { rec with nameToTemplateArg := indexMapInsert rec.nameToTemplateArg name id }).run c =
+      .ok ((), c4)) : R c c4 := by
+  have e4 : (recordMut rid fun rec => { rec with nameToTemplateArg := indexMapInsert rec.nameToTemplateArg name id }).run c
+      = .ok ((), _) := rfl
+  rw [e4] at h4
+  cases h4
+  exact CoreRel.sm c _ (.insertTARecord _ rid name id hid)
+
+theorem insertTAMulticlass_step (mid : Nat) (name : String) (id : Nat) (c c4 : IndexCtx)
+    (hid : id < c.symbolMap.templateArgList.size)
+    (h4 : (multiclassMut mid fun mc => { mc with nameToTemplateArg := indexMapInsert mc.nameToTemplateArg name id }).run c =
+      .ok ((), c4)) : R c c4 := by
+  have e4 : (multiclassMut mid fun mc => { mc with nameToTemplateArg := indexMapInsert mc.nameToTemplateArg name id }).run c
+      = .ok ((), _) := rfl
+  rw [e4] at h4
+  cases h4
+  exact CoreRel.sm c _ (.insertTAMulticlass _ mid name id hid)
 
 end prims
 
@@ -469,8 +596,55 @@ theorem Index.indexLetList_keeps (a0 : _) : Keeps R (Index.indexLetList r a0) :=
 macro_rules | `(tactic| keeps_prim) => `(tactic| (apply Index.indexLetList_keeps <;> assumption))
 
 theorem Index.indexTemplateArgDecl_keeps (a0 : _) : Keeps R (Index.indexTemplateArgDecl r a0) := by
-  unfold Index.indexTemplateArgDecl
-  keeps
+  refine ⟨fun c a c' hrun => ?_⟩
+  unfold Index.indexTemplateArgDecl at hrun
+  split at hrun
+  · rename_i nameNode _
+    obtain ⟨x1, c1, h1, hrun⟩ := IxM.run_bind_ok hrun
+    have r1 : R c c1 := (utilsIdentifier_keeps _).run _ _ _ h1
+    split at hrun
+    · rename_i name loc
+      split at hrun
+      · rename_i typNode _
+        obtain ⟨x2, c2, h2, hrun⟩ := IxM.run_bind_ok hrun
+        have r2 : R c c2 := KeepRel.trans r1 ((ht _).run _ _ _ h2)
+        split at hrun
+        · rename_i typ
+          obtain ⟨tid, c3, h3, hrun⟩ := IxM.run_bind_ok hrun
+          obtain ⟨r3', hid⟩ := addTemplateArgument_id (R := R) _ c2 c3 tid h3
+          have r3 : R c c3 := KeepRel.trans r2 r3'
+          obtain ⟨rid?, c4, h4, hrun⟩ := IxM.run_bind_ok hrun
+          have e4 : currentRecordId.run c3 = .ok (c3.scopes.currentRecordId, c3) := rfl
+          rw [e4] at h4
+          cases h4
+          cases hrid : c3.scopes.currentRecordId with
+          | some recordId =>
+            simp only [hrid] at hrun
+            obtain ⟨_, c6, h6, hrun⟩ := IxM.run_bind_ok hrun
+            have r6 : R c c6 := KeepRel.trans r3 (insertTARecord_step recordId name tid c3 c6 hid h6)
+            refine KeepRel.trans r6 ((?_ : Keeps R _).run _ _ _ hrun)
+            keeps
+          | none =>
+            simp only [hrid] at hrun
+            obtain ⟨mid?, c5, h5, hrun⟩ := IxM.run_bind_ok hrun
+            have e5 : currentMulticlassId.run c3 = .ok (c3.scopes.currentMulticlassId, c3) := rfl
+            rw [e5] at h5
+            cases h5
+            cases hmid : c3.scopes.currentMulticlassId with
+            | some mcId =>
+              simp only [hmid] at hrun
+              obtain ⟨_, c6, h6, hrun⟩ := IxM.run_bind_ok hrun
+              have r6 : R c c6 := KeepRel.trans r3 (insertTAMulticlass_step mcId name tid c3 c6 hid h6)
+              refine KeepRel.trans r6 ((?_ : Keeps R _).run _ _ _ hrun)
+              keeps
+            | none =>
+              simp only [hmid] at hrun
+              obtain ⟨_, _, h6, _⟩ := IxM.run_bind_ok hrun
+              cases h6
+        · cases hrun; exact r2
+      · cases hrun; exact r1
+    · cases hrun; exact r1
+  · cases hrun; exact KeepRel.refl _
 macro_rules | `(tactic| keeps_prim) => `(tactic| (apply Index.indexTemplateArgDecl_keeps <;> assumption))
 
 theorem Index.indexTemplateArgList_keeps (a0 : _) : Keeps R (Index.indexTemplateArgList r a0) := by
@@ -519,13 +693,75 @@ theorem Index.indexParentClassList_keeps (a0 : _) : Keeps R (Index.indexParentCl
 macro_rules | `(tactic| keeps_prim) => `(tactic| (apply Index.indexParentClassList_keeps <;> assumption))
 
 theorem Index.indexFieldDef_keeps (a0 : _) : Keeps R (Index.indexFieldDef r a0) := by
-  unfold Index.indexFieldDef
-  keeps
+  refine ⟨fun c a c' hrun => ?_⟩
+  unfold Index.indexFieldDef at hrun
+  obtain ⟨x0, c0, h0, hrun⟩ := IxM.run_bind_ok hrun
+  have r0 : R c c0 := currentRecordId_keeps.run _ _ _ h0
+  split at hrun
+  · rename_i recordId
+    split at hrun
+    · rename_i nameNode _
+      obtain ⟨x1, c1, h1, hrun⟩ := IxM.run_bind_ok hrun
+      have r1 : R c c1 := KeepRel.trans r0 ((utilsIdentifier_keeps _).run _ _ _ h1)
+      split at hrun
+      · rename_i name loc
+        split at hrun
+        · rename_i typNode _
+          obtain ⟨x2, c2, h2, hrun⟩ := IxM.run_bind_ok hrun
+          have r2 : R c c2 := KeepRel.trans r1 ((ht _).run _ _ _ h2)
+          split at hrun
+          · rename_i typ
+            obtain ⟨fid, c3, h3, hrun⟩ := IxM.run_bind_ok hrun
+            obtain ⟨r3', hid⟩ := addRecordField_id (R := R) _ c2 c3 fid h3
+            obtain ⟨_, c4, h4, hrun⟩ := IxM.run_bind_ok hrun
+            have r4 : R c c4 := KeepRel.trans (KeepRel.trans r2 r3') (insertField_step recordId name fid c3 c4 hid h4)
+            refine KeepRel.trans r4 ((?_ : Keeps R _).run _ _ _ hrun)
+            keeps
+          · cases hrun; exact r2
+        · cases hrun; exact r1
+      · cases hrun; exact r1
+    · cases hrun; exact r0
+  · cases hrun
 macro_rules | `(tactic| keeps_prim) => `(tactic| (apply Index.indexFieldDef_keeps <;> assumption))
 
 theorem Index.indexFieldLet_keeps (a0 : _) : Keeps R (Index.indexFieldLet r a0) := by
-  unfold Index.indexFieldLet
-  keeps
+  refine ⟨fun c a c' hrun => ?_⟩
+  unfold Index.indexFieldLet at hrun
+  split at hrun
+  · rename_i nameNode _
+    obtain ⟨x1, c1, h1, hrun⟩ := IxM.run_bind_ok hrun
+    have r1 : R c c1 := (utilsIdentifier_keeps _).run _ _ _ h1
+    split at hrun
+    · rename_i name loc
+      obtain ⟨x2, c2, h2, hrun⟩ := IxM.run_bind_ok hrun
+      have r2 : R c c2 := KeepRel.trans r1 (currentRecordId_keeps.run _ _ _ h2)
+      split at hrun
+      · rename_i recordId
+        obtain ⟨x3, c3, h3, hrun⟩ := IxM.run_bind_ok hrun
+        have r3 : R c c3 := KeepRel.trans r2 ((withSM_keeps _).run _ _ _ h3)
+        split at hrun
+        · rename_i fieldId
+          obtain ⟨fieldTyp, c4, h4, hrun⟩ := IxM.run_bind_ok hrun
+          have r4 : R c c4 := KeepRel.trans r3 ((withSM_keeps _).run _ _ _ h4)
+          obtain ⟨par, c5, h5, hrun⟩ := IxM.run_bind_ok hrun
+          have r5 : R c c5 := KeepRel.trans r4 ((withSM_keeps _).run _ _ _ h5)
+          by_cases hp : (par != recordId) = true
+          · simp only [hp, if_true] at hrun
+            obtain ⟨fid, c7, h7, hrun⟩ := IxM.run_bind_ok hrun
+            obtain ⟨r7, hid⟩ := addRecordField_id (R := R) _ c5 c7 fid h7
+            obtain ⟨_, c6, h8, hrun⟩ := IxM.run_bind_ok hrun
+            have r6 : R c c6 :=
+              KeepRel.trans (KeepRel.trans r5 r7) (insertField_step recordId name fid c7 c6 hid h8)
+            refine KeepRel.trans r6 ((?_ : Keeps R _).run _ _ _ hrun)
+            keeps
+          · simp only [hp, Bool.false_eq_true, if_false] at hrun
+            refine KeepRel.trans r5 ((?_ : Keeps R _).run _ _ _ hrun)
+            keeps
+        · refine KeepRel.trans r3 ((?_ : Keeps R _).run _ _ _ hrun)
+          keeps
+      · cases hrun
+    · cases hrun; exact r1
+  · cases hrun; exact KeepRel.refl _
 macro_rules | `(tactic| keeps_prim) => `(tactic| (apply Index.indexFieldLet_keeps <;> assumption))
 
 variable [VarRel R] in
